@@ -162,22 +162,30 @@ def r2_outer(ctx):
         s[0] == 'call' and s[1] == GEN and s[2][2] == ('p', 4) for s in subterms(base[0].value))
     ctx.ob(rule, OUTER, 'depth == 0 returns the number of legal moves', okb, found=show(base[0].value) if base else None, expected='candidates.len()')
     step = [o for o in outs if o.kind == 'return' and dict(o.conds).get(('p', 2)) != 0]
-    oks = False
+    oks = bool(step)
     found = None
-    for o in step:
+    par_clo = set()
+    for o in step:          # EVERY path with depth > 0 (a shortcut for some case that forgets a term is a miscount)
         v = o.value
-        found = show(v)[:300]
+        ok1 = False
         if v[0] == 'bin' and v[1] == 'Add':
             parts = [v[2], v[3]]
             ln = [p for p in parts if p[0] == 'call' and p[1].endswith('::len')]
             sm = [p for p in parts if p[0] == 'call' and p[1].endswith('ParallelIterator::sum')]
             if ln and sm:
-                chain = [s[1] for s in subterms(sm[0]) if s[0] == 'call']
-                oks = any(c.endswith('::par_iter') for c in chain) and any(c.endswith('ParallelIterator::map') for c in chain) and \
+                chain = [s for s in subterms(sm[0]) if s[0] == 'call']
+                names_ = [s[1] for s in chain]
+                ok1 = any(c.endswith('::par_iter') for c in names_) and any(c.endswith('ParallelIterator::map') for c in names_) and \
                     any(s[0] == 'call' and s[1] == GEN for s in subterms(sm[0]))
+                for s in chain:
+                    if s[1].endswith('ParallelIterator::map') and len(s[2]) > 1 and s[2][1][0] == 'agg' and s[2][1][1] == 'closure':
+                        par_clo.add(s[2][1][2])
+        if not ok1 or found is None:
+            found = show(v)[:300]
+        oks = oks and ok1
     ctx.ob(rule, OUTER, 'result = len(candidates) + sum over par_iter(candidates).map(task)', oks, found=found,
            expected='initial_count + candidates.par_iter().map(..).sum()', why='the parallel routine must count what the sequential one counts')
-    clo = OUTER + '::{closure#0}'
+    clo = next(iter(par_clo)) if len(par_clo) == 1 else OUTER + '::{closure#0}'          # the task handed to par_iter().map()
     eng = Engine(facts, opaque={INNER, CHESSMOVE + '::apply', CHESSMOVE + '::undo', MG + '::new'})
     couts = eng.run(clo)
     ctx.touch(clo)
